@@ -97,6 +97,12 @@ struct JSONUtils {
                     stream.Write((content + offset2), (offset - offset2));
 
                     ++offset;
+
+                    if (offset == length) {
+                        // Nothing after the backslash.
+                        return 0;
+                    }
+
                     offset2 = offset;
                     ++offset2;
                     const Char_T ch = content[offset];
